@@ -112,6 +112,17 @@ PARTS = {
       S('list-picky3', 'base', 'prop=C12', 'kind=list', 'elem=picky', 'maxlen=3'),
       S('array-probe3', 'base', 'prop=C12', 'kind=array', 'elem=probe', 'maxlen=3'),
       S('list-probe3', 'base', 'prop=C12', 'kind=list', 'elem=probe', 'maxlen=3'),
+      # plain user structs WITHOUT any instance (default memcpy assign): PlainP 16 bytes / PlainP12 12 bytes.  Besides the whole alphabet
+      # over such elements: push/append/set/push_at of an object of ANOTHER plain type (same size, same rounded slot size, another size) or
+      # of an Int, and concat from an Array/List/Tuple of such objects, must raise TypeError/ValueError and leave contents, len, heap
+      # balance alone; assign from a container of another plain type converts (judged on a copy).  In every state iter_type(A) is the
+      # element type and every element handed out by iteration and get() carries it.  (List without the heap-block balance: the node
+      # leak of a refused List push is the known finding list/int/*/*-element/memory-block-leaked.)
+      S('array-plain3', 'base', 'prop=C12', 'kind=array', 'elem=plain', 'maxlen=3', cflags=WRAP),
+      S('array-plain12-3', 'base', 'prop=C12', 'kind=array', 'elem=plain12', 'maxlen=3', cflags=WRAP),
+      S('list-plain3', 'base', 'prop=C12', 'kind=list', 'elem=plain', 'maxlen=3'),
+      S('list-plain12-3', 'base', 'prop=C12', 'kind=list', 'elem=plain12', 'maxlen=3'),
+      S('array-plain3-asan', 'asan', 'prop=C12', 'kind=array', 'elem=plain', 'maxlen=3'),
       S('array3-asan', 'asan', 'prop=C12', 'kind=array', 'maxlen=3'),
       S('list3-asan', 'asan', 'prop=C12', 'kind=list', 'maxlen=3'),
       S('tuple3-asan', 'asan', 'prop=C12', 'kind=tuple', 'maxlen=3'),
@@ -125,6 +136,13 @@ PARTS = {
       S('array-picky4-asan', 'asan', 'prop=C12', 'kind=array', 'elem=picky', 'maxlen=4'),
       S('array-probe5', 'base', 'prop=C12', 'kind=array', 'elem=probe', 'maxlen=5'),
       S('list-probe5', 'base', 'prop=C12', 'kind=list', 'elem=probe', 'maxlen=5'),
+      S('array-plain5', 'base', 'prop=C12', 'kind=array', 'elem=plain', 'maxlen=5', cflags=WRAP),
+      S('array-plain12-5', 'base', 'prop=C12', 'kind=array', 'elem=plain12', 'maxlen=5', cflags=WRAP),
+      S('list-plain5', 'base', 'prop=C12', 'kind=list', 'elem=plain', 'maxlen=5'),
+      S('list-plain12-5', 'base', 'prop=C12', 'kind=list', 'elem=plain12', 'maxlen=5'),
+      S('array-plain4-asan', 'asan', 'prop=C12', 'kind=array', 'elem=plain', 'maxlen=4'),
+      S('array-plain12-4-asan', 'asan', 'prop=C12', 'kind=array', 'elem=plain12', 'maxlen=4'),
+      S('list-plain12-4-asan', 'asan', 'prop=C12', 'kind=list', 'elem=plain12', 'maxlen=4'),
       S('array5-asan', 'asan', 'prop=C12', 'kind=array', 'maxlen=5'),
       S('list5-asan', 'asan', 'prop=C12', 'kind=list', 'maxlen=5'),
       S('tuple5-asan', 'asan', 'prop=C12', 'kind=tuple', 'maxlen=5'),
